@@ -46,8 +46,10 @@ def run(ctx: Context) -> None:
     clause_a(ctx, idx, reg, res)
     clause_b(ctx, idx, reg, res)
     clause_c(ctx, idx, reg)
+    ctx.rule("C09e", "a connector's hand-written polar decomposition has the contract of scipy.linalg.polar: P^2 = M^dagger M and U = M P^-1 for side='right', P^2 = M M^dagger and U = P^-1 M for side='left'")
     ctx.rule("C09d", "the NumPy and the JAX implementation of the Gaussian density-matrix recurrence (_entry_raising_ket / _entry_raising_bra) have the same pivot, initial term, loop summands and divisor (normal forms over abstract states and indices)")
     clause_d(ctx, idx)
+    clause_e(ctx, idx)
 
 
 # ================================================================================================ (a)
@@ -454,3 +456,99 @@ def clause_d(ctx: Context, idx) -> None:
                               f"the two implementations of the density-matrix recurrence {name} differ in their {part.replace('_', ' ')}: {detail}; "
                               f"GaussianState.density_matrix then depends on the connector", detail[:160])
     ctx.require_floor("recurrence functions compared between the NumPy and the JAX implementation", n_cmp, 2)
+
+
+# ================================================================================================ (e)
+
+
+def clause_e(ctx: Context, idx) -> None:
+    """Hand-written polar decompositions of the connectors (those that do not delegate to scipy): `matrix = U P` with
+    P^2 = matrix^dagger matrix for side="right", `matrix = P U` with P^2 = matrix matrix^dagger for side="left" - the contract of
+    scipy.linalg.polar, which the NumPy connector uses.  Decided in the matrix-word algebra."""
+    from .. import moments as mo
+    base = idx.find_class("piquasso.api.connector", "BaseConnector")
+    n = 0
+    for c in idx.subclasses(base, strict=False):
+        f = c.methods.get("polar")
+        if f is None or not any(isinstance(x, ast.Call) and (dotted(x.func) or "").split(".")[-1] == "sqrtm" for x in ast.walk(f.node)):
+            continue
+        params = f.params()
+        if len(params) < 2:
+            continue
+        mname = params[1]
+        M = mo.sym("M")
+        want = {"right": mo.mul(mo.transpose(mo.conj(M)), M), "left": mo.mul(M, mo.transpose(mo.conj(M)))}
+        # straight-line prefix and the two arms
+        arms: Dict[str, List[ast.stmt]] = {"right": [], "left": []}
+        prefix: List[ast.stmt] = []
+        for s_ in f.node.body:
+            if isinstance(s_, ast.If):
+                node = s_
+                while isinstance(node, ast.If):
+                    t = node.test
+                    side = None
+                    if isinstance(t, ast.Compare) and len(t.ops) == 1 and isinstance(t.ops[0], ast.Eq) and isinstance(t.comparators[0], ast.Constant) \
+                            and t.comparators[0].value in ("right", "left"):
+                        side = t.comparators[0].value
+                    if side is None:
+                        raise AnalysisError(f"C09e: {f.qualname} branches on something else than side == 'right' / 'left' (undecided)")
+                    arms[side] = list(node.body)
+                    nxt = node.orelse
+                    if len(nxt) == 1 and isinstance(nxt[0], ast.If):
+                        node = nxt[0]
+                    else:
+                        if nxt:
+                            other = "left" if side == "right" else "right"
+                            if not arms[other]:
+                                arms[other] = list(nxt)
+                        break
+            elif isinstance(s_, ast.Assign):
+                prefix.append(s_)
+        for side in ("right", "left"):
+            env: Dict[str, object] = {mname: M}
+            squared = None
+            p_name = None
+            u_ok = None
+            for s_ in prefix + arms[side]:
+                if not (isinstance(s_, ast.Assign) and len(s_.targets) == 1 and isinstance(s_.targets[0], ast.Name)):
+                    continue
+                v = s_.value
+                if isinstance(v, ast.Call) and (dotted(v.func) or "").split(".")[-1] == "sqrtm" and v.args:
+                    try:
+                        squared = mo.WordEval(env).ev(v.args[0])
+                    except mo.Untranslatable as e:
+                        ctx.error(f"C09e: {e} (undecided)")
+                    p_name = s_.targets[0].id
+                    continue
+                if isinstance(v, ast.Call) and (dotted(v.func) or "").split(".")[-1] == "inv" and v.args and isinstance(v.args[0], ast.Name):
+                    env[s_.targets[0].id] = ("inv", v.args[0].id)
+                    continue
+                if isinstance(v, ast.BinOp) and isinstance(v.op, ast.MatMult) and p_name is not None:
+                    def is_inv_p(e):
+                        if isinstance(e, ast.Name) and env.get(e.id) == ("inv", p_name):
+                            return True
+                        return isinstance(e, ast.Call) and (dotted(e.func) or "").split(".")[-1] == "inv" and e.args and isinstance(e.args[0], ast.Name) and e.args[0].id == p_name
+                    is_m = lambda e: isinstance(e, ast.Name) and e.id == mname  # noqa: E731
+                    if is_m(v.left) and is_inv_p(v.right):
+                        u_ok = side == "right"
+                    elif is_inv_p(v.left) and is_m(v.right):
+                        u_ok = side == "left"
+                    continue
+                try:
+                    env[s_.targets[0].id] = mo.WordEval(env).ev(v)
+                except mo.Untranslatable:
+                    pass
+            key = f"{f.qualname}|side={side}"
+            if squared is None or u_ok is None:
+                ctx.error(f"C09e: cannot read the {side} arm of {f.qualname} (undecided)")
+                continue
+            n += 1
+            ok = mo.add(squared, want[side], -1) == {} and u_ok
+            ctx.obligation("C09e", key, ok, f"{ctx.relpath(f.file)}:{f.line}", P_squared=mo.fmt(squared), expected=mo.fmt(want[side]))
+            if not ok:
+                ctx.violation("C09e", key, f.file, f.line,
+                              f"{c.name}.polar(side='{side}') takes P as the square root of {mo.fmt(squared)} and U "
+                              f"{'on the wrong side' if not u_ok else 'accordingly'}; scipy.linalg.polar (the NumPy connector) gives P^2 = "
+                              f"{mo.fmt(want[side])}: for complex matrices the factors differ and everything built on them (Euler decomposition, "
+                              f"active linear gates on the Fock simulators) gives another state than with the NumPy connector", mo.fmt(squared))
+    ctx.require_floor("C09e arms of hand-written polar decompositions", n, 2)
